@@ -58,14 +58,17 @@ SHELL_LINES = [['echo', 'hi'], ['printf', "'a\\nb\\nc\\n'"], ['true'], ['cat', '
                ['exit', '0'], ['echo', 'é'], ['echo', 'x', '>', 'out.txt'], ['cat', '<', 'f.txt'],
                ['echo', 'err', '>&2']]
 SHELL_LINES_FAILING = [['exit', '3'], ['false'], ['exit', '1']]
-PY_SOURCES = ["'pass'", "'print(1)'", '"import sys; sys.exit(0)"', "'import sys; sys.stdout.write(sys.stdin.read())'"]
+# statements only: a source that lands in an INTEGER position after a mutation is a Python syntax error for eval()
+PY_SOURCES = ["'pass'", "'import sys; sys.stdout.write(str(1))'", '"import sys; sys.exit(0)"',
+              "'import sys; sys.stdout.write(sys.stdin.read())'"]
 
 
 class G:
     """One generation run.  All randomness comes from `draw` (a Hypothesis draw function)."""
 
-    def __init__(self, draw):
+    def __init__(self, draw, focus=None):
         self.draw = draw
+        self.focus = focus  # token kind the case should contain (int / regex / repl / glob / range / ref) or None
         self.defined = set()  # keys of SYM that are defined (in execution order before the current instruction)
         self.new_files = 0
         self.new_dirs = 0
@@ -83,6 +86,13 @@ class G:
 
     def maybe(self, one_in=2):
         return self.n(one_in) == one_in - 1
+
+    def perm(self, seq):
+        return list(self.draw(st.permutations(seq)))
+
+    def want(self, *kinds):
+        """bias towards productions that contain a token of the focused kind"""
+        return self.focus in kinds and self.maybe(2)
 
     # ---- token emission ----------------------------------------------------------------------------------------
     def begin(self):
@@ -230,7 +240,7 @@ class G:
 
     def sym(self, key, prob=5):
         """reference to a symbol of the type by name or by @[..]@ - returns True if emitted"""
-        if self.has(key) and self.maybe(prob):
+        if self.has(key) and self.maybe(2 if self.focus == 'ref' else prob):
             typ = SYM_TYPE.get(key, key)
             if self.maybe(4):
                 self.t('@[%s]@' % SYM[key], 'sref:' + typ)
@@ -283,7 +293,7 @@ class G:
             self.t(self.pick(REGEX_GOOD), 'regex')
 
     def glob_or_regex(self):
-        if self.maybe(3):
+        if self.want('regex') or (self.focus != 'glob' and self.maybe(3)):
             self.t('~', 'kw')
             self.regex()
         else:
@@ -417,6 +427,12 @@ class G:
         if self.sym('text-transformer'):
             return
         form = self.n(13) if d > 0 else self.n(7)
+        if self.want('repl'):
+            form = 4
+        elif self.want('range'):
+            form = 6
+        elif self.want('regex'):
+            form = self.pick([3, 4])
         if form == 0:
             self.t('identity', 'kw')
         elif form == 1:
@@ -469,6 +485,12 @@ class G:
         if self.sym('text-matcher'):
             return
         form = self.n(16) if d > 0 else self.n(6)
+        if d > 0 and self.want('repl', 'range'):
+            form = 11
+        elif self.want('regex'):
+            form = 2
+        elif d > 0 and self.want('int'):
+            form = 6
         if form == 0:
             self.t('is-empty', 'kw')
         elif form == 1:
@@ -511,6 +533,10 @@ class G:
         if self.sym('line-matcher'):
             return
         form = self.n(8) if d > 0 else self.n(3)
+        if self.want('int'):
+            form = 1
+        elif self.want('regex', 'repl', 'range'):
+            form = 2
         if form == 0:
             self.t('constant', 'kw')
             self.t(self.pick(['true', 'false']), 'kw')
@@ -534,6 +560,12 @@ class G:
         if self.sym('file-matcher'):
             return
         form = self.n(14) if d > 0 else self.n(6)
+        if self.want('glob', 'regex'):
+            form = 2
+        elif d > 0 and self.want('int'):
+            form = 8
+        elif d > 0 and self.want('repl', 'range'):
+            form = 6
         if form == 0:
             self.t('type', 'kw')
             self.t(self.pick(['file', 'dir', 'symlink']), 'kw')
@@ -587,6 +619,10 @@ class G:
         if self.sym('files-matcher'):
             return
         form = self.n(14) if d > 0 else self.n(3)
+        if self.want('int'):
+            form = 2
+        elif d > 0 and self.want('glob', 'regex', 'repl', 'range'):
+            form = 4
         if form == 0:
             self.t('is-empty', 'kw')
         elif form == 1:
@@ -1003,7 +1039,7 @@ class G:
         elif actor == 'source-py':
             for _ in range(1 + self.n(2)):
                 self.begin()
-                self.t(self.pick(['print(1)', 'pass', 'import sys', 'x = 1']), 'text')
+                self.t(self.pick(['import sys', 'pass', 'import sys', 'x = 1']), 'text')
                 self.end('act', 'act-source')
         else:
             self.begin()
@@ -1067,16 +1103,41 @@ PRELUDE = [
 ]
 
 
-def build_document(draw, size=None):
-    """-> {'elems': [...], 'inc': [...] | None}"""
-    g = G(draw)
+def _has_kind(elems, focus):
+    for e in elems:
+        for t in e['toks']:
+            k = t[1]
+            if k == focus or (focus == 'ref' and (k.startswith('ref:') or k.startswith('sref:'))):
+                return True
+    return False
+
+
+def focused_instruction(g, ph, tries=12):
+    """an instruction of the phase that contains a token of kind g.focus (best effort: the last try is kept)"""
+    for i in range(tries):
+        mark = len(g.elems)
+        g.instruction(ph)
+        if _has_kind(g.elems[mark:], g.focus) or i == tries - 1:
+            return
+        del g.elems[mark:]
+
+
+def build_document_g(g):
+    """-> {'elems': [...], 'inc': [...] | None, 'actor': ...}; g.focus: the case is small and built around one
+    instruction that contains a token of that kind"""
+    focus = g.focus
     actor = g.conf()
     conf_elems, g.elems = g.elems, []
 
     # ---- setup: prelude, definitions, instructions
     for toks in PRELUDE:
         g.elems.append({'ph': 'setup', 'name': toks[0][0], 'toks': [list(t) for t in toks]})
-    n_defs = g.pick([0, 1, 2, 3, 4, 6, 15])
+    if focus == 'ref':
+        n_defs = g.pick([15, 15, 6, 30])
+    elif focus:
+        n_defs = g.pick([0, 0, 1, 2, 4])
+    else:
+        n_defs = g.pick([0, 1, 2, 3, 4, 6, 15])
     wanted = set()
     for _ in range(n_defs):
         wanted.add(g.pick(DEF_ORDER))
@@ -1087,6 +1148,8 @@ def build_document(draw, size=None):
         g.begin()
         g.t('def', 'kw'); g.t('string', 'kw'); g.t('INC', 'name'); g.t('=', 'kw'); g.string()
         g.end('setup', 'def')
+        if focus and g.maybe(2):
+            focused_instruction(g, 'setup')
         for _ in range(g.n(3)):
             g.instruction('setup')
         if g.maybe(3):
@@ -1100,7 +1163,10 @@ def build_document(draw, size=None):
     for key in DEF_ORDER:
         if key in wanted:
             g.i_def('setup', key)
-    for _ in range(g.n(4)):
+    focus_ph = g.pick(['assert', 'assert', 'setup', 'before-assert', 'cleanup', 'assert']) if focus else None
+    if focus_ph == 'setup':
+        focused_instruction(g, 'setup')
+    for _ in range(g.n(3) if focus else g.n(4)):
         g.instruction('setup')
     setup_elems, g.elems = g.elems, []
 
@@ -1108,8 +1174,10 @@ def build_document(draw, size=None):
     g.act(actor)
     sections['act'], g.elems = g.elems, []
     for ph in ['before-assert', 'assert', 'cleanup']:
-        lo = 1 if ph == 'assert' else 0
-        for _ in range(lo + g.n(3)):
+        lo = 1 if ph == 'assert' and not focus else 0
+        if ph == focus_ph:
+            focused_instruction(g, ph)
+        for _ in range(lo + (g.n(2) if focus else g.n(3))):
             if g.maybe(8):
                 g.description(ph)
             g.instruction(ph)
@@ -1119,7 +1187,7 @@ def build_document(draw, size=None):
     order = list(PHASES)
     k = g.n(6)
     if k:
-        order = draw(st.permutations(PHASES))
+        order = g.perm(PHASES)
     doc = []
     act_first_without_header = order[0] == 'act' and g.maybe(2)
     for i, ph in enumerate(order):
@@ -1142,9 +1210,53 @@ def build_document(draw, size=None):
     return {'elems': doc, 'inc': inc_elems, 'actor': actor}
 
 
+def build_document(draw, focus=None):
+    return build_document_g(G(draw, focus))
+
+
 @st.composite
-def documents(draw):
-    return build_document(draw)
+def documents(draw, focus=None):
+    return build_document(draw, focus)
+
+
+class ChoiceG(G):
+    """the grammar driven by an explicit sequence of choices instead of Hypothesis (byte strings of a fuzzer, a
+    seeded random.Random): `next_choice(k)` returns 0 <= value < k"""
+
+    def __init__(self, next_choice, focus=None):
+        G.__init__(self, None, focus)
+        self._next = next_choice
+
+    def n(self, k):
+        return self._next(k) if k > 1 else 0
+
+    def perm(self, seq):
+        seq = list(seq)
+        out = []
+        while seq:
+            out.append(seq.pop(self.n(len(seq))))
+        return out
+
+
+def byte_choices(data):
+    """choice function over a byte string: one byte per choice (two for k > 256); 0 ('the plain choice') when
+    the bytes are used up"""
+    pos = [0]
+
+    def nxt(k):
+        i = pos[0]
+        if k <= 256:
+            if i >= len(data):
+                return 0
+            pos[0] = i + 1
+            return data[i] % k
+        if i + 1 >= len(data):
+            return 0
+        pos[0] = i + 2
+        return (data[i] * 256 + data[i + 1]) % k
+
+    nxt.pos = pos
+    return nxt
 
 
 def flatten(elems):
